@@ -123,10 +123,12 @@ _dispatch_semaphore_wait_slow(dispatch_semaphore_t dsema,
 		while (orig < 0) {
 			if (os_atomic_cmpxchgvw2o(dsema, dsema_value, orig, orig + 1,
 					&orig, relaxed)) {
+				DISPATCH_VERIF_PROBE(7);
 				return _DSEMA4_TIMEOUT();
 			}
 		}
 		// Another thread called semaphore_signal(). Drain the wakeup.
+		DISPATCH_VERIF_PROBE(8);
 		DISPATCH_FALLTHROUGH;
 	case DISPATCH_TIME_FOREVER:
 		_dispatch_sema4_wait(&dsema->dsema_sema);
@@ -250,6 +252,7 @@ _dispatch_group_wake(dispatch_group_t dg, uint64_t dg_state, bool needs_release)
 
 	if (dg_state & DISPATCH_GROUP_HAS_NOTIFS) {
 		dispatch_continuation_t dc, next_dc, tail;
+		DISPATCH_VERIF_PROBE(10);
 
 		// Snapshot before anything is notified/woken <rdar://problem/8554546>
 		dc = os_mpsc_capture_snapshot(os_mpsc(dg, dg_notify), &tail);
@@ -265,6 +268,7 @@ _dispatch_group_wake(dispatch_group_t dg, uint64_t dg_state, bool needs_release)
 	}
 
 	if (dg_state & DISPATCH_GROUP_HAS_WAITERS) {
+		DISPATCH_VERIF_PROBE(9);
 		_dispatch_wake_by_address(&dg->dg_gen);
 	}
 
